@@ -38,8 +38,15 @@ def main():
         try:
             mon.run_case(cs)
             acc["cases"] += 1
-        except Exception:
-            acc["harness_errors"].append({"case": seed_str, "trace": traceback.format_exc()[-3000:]})
+        except Exception as e:
+            tb = traceback.extract_tb(e.__traceback__)
+            in_generator = bool(tb) and tb[-1].filename.endswith(os.sep + "world.py") or (len(tb) > 1 and tb[-2].filename.endswith(os.sep + "world.py") and isinstance(e, OSError))
+            if in_generator and isinstance(e, OSError):
+                # the workload generator produced an unusable tree (e.g. a file and a folder with the same name):
+                # the case is dropped and counted; run.py makes the run inconclusive if this is not rare
+                acc["counters"]["generator_glitch_cases_dropped"] = acc["counters"].get("generator_glitch_cases_dropped", 0) + 1
+            else:
+                acc["harness_errors"].append({"case": seed_str, "trace": traceback.format_exc()[-3000:]})
         finally:
             try:
                 clock.unfreeze()
